@@ -74,6 +74,7 @@ GhostInit(S) ==
     pvGrants |-> {},                      \* <<candidate, term, voter>>: pre-vote grants that reached the candidate
     slog     |-> [n \in S |-> EmptyFn],   \* durable log as of the last state line (dlog moves at store events)
     seenTerm |-> [n \in S |-> 0],         \* highest term n was told about by somebody else
+    starting |-> {},                      \* servers inside NewRaft (between `restart` and the `started` state line)
     rcur     |-> [n \in S |-> 0],         \* user Restore call in progress on n (op id, 0 = none)
     abOf     |-> EmptyFn,                 \* payload id -> the Restore call that aborted its Apply
     abOK     |-> {},                      \* payload ids aborted by a Restore that returned nil
@@ -346,6 +347,7 @@ DoState(ln) ==
   IN
   /\ obs' = o2 /\ dlog' = dl2 /\ dsnaps' = ds2
   /\ g' = [g EXCEPT !.agreed = ag2, !.reported = rep2, !.hpend[n] = <<>>, !.slog[n] = postLog,
+                    !.starting = IF started THEN @ \ {n} ELSE @,
                     !.dur[n] = <<post.ct, post.vt, post.vc>>,
                     \* the vote record of the image a server is FIRST started from is a vote it has cast
                     !.grants = (IF started /\ pre.inc = 0 /\ post.vc # "" THEN @ \cup {<<n, post.vt, post.vc>>} ELSE @) \cup selfV,
@@ -445,9 +447,16 @@ DoStore(ln) ==
                                               a == Voters(tab, p)
                                               b == Voters(tab, ln.entries[j][4])
                                           IN p # NoCfg /\ Cardinality((a \ b) \cup (b \ a)) > 1}}
+      \* routine compaction removes only entries at or below the newest snapshot and leaves at least TrailingLogs entries
+      vCompact == IF isDR /\ Has(ln, "by") /\ ln.by = "compact"
+                          /\ \E k \in DOMAIN dlog[n] : ln.min <= k /\ k <= ln.max        \* it removes something
+                  THEN (IF ln.max <= SnapIdxOf(dsnaps[n]) THEN {} ELSE {<<"C11", "CompactionBeyondSnapshot", <<n, ln.min, ln.max, SnapIdxOf(dsnaps[n])>>>>})
+                       \cup (IF ln.max + params.trailing <= LogLast(dlog[n]) THEN {}     \* the last TrailingLogs indexes stay
+                             ELSE {<<"C11", "CompactionKeptTooFew", <<n, ln.min, ln.max, LogLast(dlog[n]), params.trailing>>>>})
+                  ELSE {}
   IN /\ g' = [g EXCEPT !.dur[n] = d2, !.grants = @ \cup gr, !.agreed = ag2]
      /\ dlog' = dl2 /\ obs' = o2
-     /\ Judge(V \cup conf \cup vStepCfg, {}) /\ UNCHANGED <<hdr, dsnaps>>
+     /\ Judge(V \cup conf \cup vStepCfg \cup vCompact, {}) /\ UNCHANGED <<hdr, dsnaps>>
 
 DoFsm(ln) ==
   LET n == ln.n IN
@@ -472,6 +481,8 @@ DoFsm(ln) ==
     LET i == g.fsmOpen[n][1]
         V == IF ContentFaithful(ln.content, i, g.agreed, g.bases, g.burned) THEN {}
              ELSE {<<"C02", "RestoreNotAgreedState", <<n, i, ln.content>>>>}
+                  \* at start-up: the FSM is rebuilt with entries skipped or repeated
+                  \cup (IF n \in g.starting THEN {<<"C10", "RestartFSMNotAgreedState", <<n, i, ln.content>>>>} ELSE {})
     IN /\ g' = [g EXCEPT !.fsmLast[n] = i]
        /\ Judge(V, {}) /\ Keep
   ELSE Quiet /\ Keep /\ UNCHANGED g
@@ -496,12 +507,15 @@ DoSnap(ln) ==
                \cup (LET sidx == IF g.rcur[n] \in DOMAIN g.inv THEN g.inv[g.rcur[n]].sidx ELSE 0
                      IN IF isUser /\ (i <= LogLast(dlog[n]) \/ i <= sidx \/ i <= obs[n].last)
                         THEN {<<"C20", "RestoreIndexNotFresh", <<n, i, LogLast(dlog[n]), sidx, obs[n].last>>>>} ELSE {})
+         rec == [cfg |-> ln.cfg, cfgidx |-> ln.cfgidx, content |-> ln.content, id |-> ln.id, idx |-> ln.idx, term |-> ln.term]
      IN /\ g' = [g EXCEPT !.bases = b2, !.burned = d2]
-        /\ Judge(V, {}) /\ Keep
+        \* the closed snapshot is durable from now on (the next state line lists the store's content)
+        /\ dsnaps' = [dsnaps EXCEPT ![n] = IF SnapIdxOf(@) <= ln.idx THEN <<rec>> \o @ ELSE @]
+        /\ Judge(V, {}) /\ UNCHANGED <<hdr, obs, dlog>>
   ELSE Quiet /\ Keep /\ UNCHANGED g
 
 DoRestart(ln) ==
-  /\ g' = [g EXCEPT !.fsmLast[ln.n] = 0, !.hpend[ln.n] = <<>>, !.notif[ln.n] = <<>>, !.trans[ln.n] = <<>>, !.isrep[ln.n] = <<0, 0>>]
+  /\ g' = [g EXCEPT !.starting = @ \cup {ln.n}, !.fsmLast[ln.n] = 0, !.hpend[ln.n] = <<>>, !.notif[ln.n] = <<>>, !.trans[ln.n] = <<>>, !.isrep[ln.n] = <<0, 0>>]
   /\ Quiet /\ Keep
 
 DoStartFail(ln) ==
